@@ -160,6 +160,7 @@ class SimOracle(object):
         self.pending_grants = {}
         self.arrivals = {}           # (obj, side) -> [(time, pid)]
         self.dropped_at = {}         # instant -> objects that an ending process held
+        self.link_active = {lk: True for lk in self.sc.links}    # (cond, object, side) -> still subscribed
         self.traj = {}               # obj -> [(time, value, evno)] value after each event in which it changed
         self.skips = 0
         self.ops = 0
@@ -681,6 +682,26 @@ class SimOracle(object):
         elif name == "prel":
             pl, n = a[0], int(a[1])
             p.pool[pl] = p.pool.get(pl, 0) - n
+        elif name in ("ftimer_add", "ftimer_cancel", "ftimers_clear"):
+            # the same operations on the timers of another process
+            self.cls("foreign-" + name[1:])
+            tg = self.procs[int(a[0])]
+            if tg.cur is not None:
+                self.cls("foreign-" + name[1:] + "-on-blocked-target")
+            return self.nonblocking(tg, name[1:], a[1:])
+        elif name in ("cunsub", "csub"):
+            nm, sd = a[1].split(".")
+            key = (a[0], nm, int(sd))
+            if name == "cunsub":
+                want = 1 if self.link_active.get(key) else 0
+                if int(a[3]) != want:
+                    self.viol("C13", "C13/unsubscribe-result", "unsubscribe(%s, %s) returned %s, the condition was %ssubscribed"
+                              % (a[0], a[1], a[3], "" if want else "not "))
+                self.link_active[key] = False
+                self.cls("cond-unsubscribe" + ("" if want else "-not-subscribed"))
+            else:
+                self.link_active[key] = True
+                self.cls("cond-resubscribe")
         elif name in ("timer_add", "timer_set"):
             d, sig, h = fx(a[0]), int(a[1]), int(a[3])
             if name == "timer_set":
@@ -852,7 +873,7 @@ class SimOracle(object):
         side_needed = {"after-release": 0, "after-put": 0, "after-get": 1}[why]
         ok = False
         for (c, o, s) in self.sc.links:
-            if c == cond and s == side_needed and o == obj:
+            if c == cond and s == side_needed and o == obj and self.link_active.get((c, o, s)):
                 ok = True
         if not ok:
             return
